@@ -4,7 +4,7 @@ bit-identical; volume = reduced sum) on containers, whole plates and slices (via
 and the trash link in recipes (amount a remove step took out = what tracking reports as discarded)."""
 from __future__ import annotations
 
-from .common import shard, run_cases, BASE_ASSUMPTIONS, repo_suite, repo_suite_job
+from .common import under_display_configs, shard, run_cases, BASE_ASSUMPTIONS, repo_suite, repo_suite_job
 
 ID = 'C17'
 LEVEL = 'exploration'
@@ -30,6 +30,9 @@ def required_buckets(tier):
 
 def plan(tier, seed):
     jobs = _plan(tier, seed)
+    # a fraction of the budget under other documented configurations (display units / precisions, storage units with
+    # unequal prefixes)
+    jobs = jobs + under_display_configs(shard('history', 20, 2) + shard('recipe', 12, 1) if tier == 'quick' else shard('history', 300, 8) + shard('recipe', 200, 4))
     if tier != 'quick' or False:
         jobs = jobs + repo_suite_job()
     return jobs
